@@ -41,6 +41,9 @@ fn edge_passwords(ctx: &Ctx) {
         "line\n".into(), "crlf\r\n".into(), "\n".into(), "\r".into(), "\r\n".into(), "two\n\n".into(), "\nleading-newline".into(), "in\nside".into(),
         "tab\t".into(), "\ttab".into(), "space ".into(), " space".into(), "  ".into(), "nbsp\u{a0}".into(), "\u{2028}line-sep".into(), "vt\u{b}".into(), "ff\u{c}".into(), "bell\u{7}".into(),
         "esc\u{1b}[0m".into(), "del\u{7f}".into(), "bom\u{feff}".into(), "caf\u{e9}".into(), "cafe\u{301}".into(),
+        // shapes that configuration-file or shell conventions would "clean up": quotes, escapes, variable references, comments
+        "\"quoted\"".into(), "'single'".into(), "\"\"".into(), "''".into(), "\"open".into(), "back\\slash".into(), "trail\\".into(), "$HOME".into(), "${KESTREL_PASSWORD}".into(), "%PATH%".into(),
+        "#hash first".into(), "semi;colon".into(), "a=b".into(), "=lead".into(), "~tilde".into(), "per%41cent".into(), "plus+sign".into(), "-dash-first".into(), "--env-pass".into(),
     ];
     let n = ctx.tier.pick(family.len(), family.len() * 3);
     par_for(n, crate::util::ncpu(), |i| {
@@ -71,7 +74,8 @@ fn edge_passwords(ctx: &Ctx) {
             return;
         }
         // look-alikes that are different byte strings must not open it
-        let mut alikes: Vec<String> = vec![w.trim().to_string(), w.trim_end().to_string(), w.trim_start().to_string(), w.trim_end_matches(|c| c == '\n' || c == '\r').to_string(), format!("{}\n", w), format!("{} ", w), w.replace('\t', " "), w.replace("\r\n", "\n")];
+        let unq = |c: char| w.strip_prefix(c).and_then(|x| x.strip_suffix(c)).map(|x| x.to_string()).unwrap_or_else(|| w.clone());
+        let mut alikes: Vec<String> = vec![unq('"'), unq('\''), w.replace('\\', ""), w.replace("%41", "A"), w.replace('+', " "), w.trim().to_string(), w.trim_end().to_string(), w.trim_start().to_string(), w.trim_end_matches(|c| c == '\n' || c == '\r').to_string(), format!("{}\n", w), format!("{} ", w), w.replace('\t', " "), w.replace("\r\n", "\n")];
         alikes.retain(|a| a != w);
         alikes.sort();
         alikes.dedup();
